@@ -85,6 +85,29 @@ func init() {
 					specs = append(specs, lg)
 				}
 			}
+			// sketches built by the convenience constructors: the accuracy asked of
+			// the constructor is the accuracy the answers must have
+			alphas := []float64{0.1}
+			if tier == "thorough" {
+				alphas = []float64{0.1, 0.02, 0.5}
+			}
+			for _, a := range alphas {
+				for _, cn := range []string{"NewDefaultDDSketch", "LogUnboundedDenseDDSketch", "NewDDSketchFromStoreProvider"} {
+					c, a := ctorByName(cn), a
+					ms := MapSpec{Kind: 'G', Alpha: a}
+					k := c.Store(0)
+					sp := &SketchScenarioSpec{Name: fmt.Sprintf("C01/%s(%s)", c.Name, fstr(a)), Property: "C01", Map: ms, Stores: []Kind{k}, Exact: c.Exact, Depth: 3,
+						Checks: []func(*SketchWorld, int) []mc.Fail{checkC01()}, Ctor: func(int) *SkSlot { return c.New(a, 0) }}
+					if tier == "thorough" {
+						sp.Depth = 4
+					}
+					for _, v := range dedupFloats(edgeValues(ms.New(), k, tier == "thorough")) {
+						sp.Ops = append(sp.Ops, skAdd(0, v))
+					}
+					sp.Ops = append(sp.Ops, skRead(0))
+					specs = append(specs, sp)
+				}
+			}
 			return shardsOfSketchSpecs(specs)
 		},
 		ShardBudget: budget(70*time.Second, 12*time.Minute),
@@ -173,6 +196,25 @@ func init() {
 						specs = append(specs, sp)
 					}
 				}
+			}
+			// sketches built by the convenience constructors (slot a), partner built as usual
+			for _, c := range sketchCtors {
+				c := c
+				ms := MapSpec{Kind: 'G', Alpha: 0.1}
+				k := c.Store(3)
+				sp := &SketchScenarioSpec{Name: fmt.Sprintf("C12/%s(0.1)", c.Name), Property: "C12", Map: ms, Stores: []Kind{k, {K: 'D'}}, Exact: c.Exact, Depth: 3,
+					Checks: []func(*SketchWorld, int) []mc.Fail{checkC12()},
+					Ctor: func(slot int) *SkSlot {
+						if slot == 0 {
+							return c.New(0.1, 3)
+						}
+						return nil
+					}}
+				if tier == "thorough" {
+					sp.Depth = 4
+				}
+				sp.Ops = generalSketchOps(ms.New(), k, c.Exact)
+				specs = append(specs, sp)
 			}
 			return shardsOfSketchSpecs(specs)
 		},
